@@ -124,7 +124,7 @@ def build_s1():
 S1_INPUTS = [{'b': {'x': 1}, 'cs': [{'y': 'q'}]}, {'b': {'x': -1}}, {'cs': [{'back': {'b': {'x': '5'}}}]}, {'n': 'x'}, {}]
 
 
-@ob('first-parse/forward-refs', marks=['preempted'], budget=(150, 900), per_path=(30, 60),
+@ob('first-parse/forward-refs', marks=['preempted'], budget=(240, 900), per_path=(30, 60),
     bounds="two threads make the first parse of a class with two pending forward references (Optional['B'], List['C'], C referring "
            'back to A), each on a solver-picked input from 5 (valid, invalid nested, deep, invalid scalar, empty); every schedule (which thread starts is part of it) '
            'with at most 1 preemption (2 thorough) plus the free hand-over when a thread finishes at watched line boundaries', out='see ASSUMPTIONS')
@@ -133,7 +133,7 @@ def first_parse(V):
     race(V, build_s1, [lambda ns, d=S1_INPUTS[i]: dict(ns['A'](**d)), lambda ns, d=S1_INPUTS[j]: dict(ns['A'](**d))], 'first-parse')
 
 
-@ob('first-parse/nested-first-use', marks=['preempted'], budget=(150, 900), per_path=(30, 60),
+@ob('first-parse/nested-first-use', marks=['preempted'], budget=(240, 900), per_path=(30, 60),
     bounds='thread 0 makes the first parse of A (which triggers the first parse of B and C), thread 1 the first parse of C (which '
            'refers back to A); same bounds')
 def nested_first_use(V):
@@ -168,7 +168,7 @@ def build_s3():
     return {'Local': getattr(mod, 'make%d' % n)(), 'fn': getattr(mod, 'fn%d' % n), '__mod__': mod}
 
 
-@ob('first-parse/local-class', marks=['preempted'], budget=(150, 900), per_path=(30, 60),
+@ob('first-parse/local-class', marks=['preempted'], budget=(240, 900), per_path=(30, 60),
     bounds='two threads make the first parse of one function-local self-referencing class that also names a module-level class defined later (its forward references are un-evaluated '
            'again after each resolution) on solver-picked inputs; same bounds')
 def local_class(V):
@@ -195,7 +195,7 @@ def local_class_items(V):
          watched=ITEMS_WATCHED, preemptions=2)
 
 
-@ob('first-parse/function', marks=['preempted'], budget=(150, 900), per_path=(30, 60),
+@ob('first-parse/function', marks=['preempted'], budget=(240, 900), per_path=(30, 60),
     bounds='two threads make the first call of a decorated function whose parameter, default and return annotations are forward '
            'references to a class defined later; solver-picked valid / invalid arguments; same bounds')
 def function(V):
@@ -239,7 +239,7 @@ def convert_builtin(ns):
             utype.type_transform('2020-01-02', __import__('datetime').date).isoformat()]
 
 
-@ob('registry/register-vs-convert', marks=['preempted'], budget=(150, 900), per_path=(30, 60),
+@ob('registry/register-vs-convert', marks=['preempted'], budget=(240, 900), per_path=(30, 60),
     bounds='thread 0 registers a converter for a fresh class and converts with it, thread 1 converts builtin types (int, List[int], '
            'date) through the same shared registry and cache; two threads each registering their own class and converting; a converter '
            'replaced while another thread converts to that type (later conversions must use the new one); '
